@@ -178,7 +178,12 @@ const INVALID_SPECS: &[&str] = &[
 
 pub fn gen_cli(t: &mut Tape) -> Cli {
     let program = t.weighted(&[6, 2, 1, 2]);
-    let input = t.pick(&["main.asm", "main.asm", "prog.s", "dir/main.asm", "noext", "main.bin", "a.b.asm", "main.txt"]).to_string();
+    let input = if crate::engine::gen_version() >= 2 {
+        // v2: dots in directory names, `./`, a dot-file: the derived name changes only the LAST component
+        t.pick(&["main.asm", "main.asm", "prog.s", "dir/main.asm", "noext", "main.bin", "a.b.asm", "main.txt", "./noext", "v1.2/prog", "dir.d/main.asm", ".hidden", "./main.asm", "a.b/c.d/noext"]).to_string()
+    } else {
+        t.pick(&["main.asm", "main.asm", "prog.s", "dir/main.asm", "noext", "main.bin", "a.b.asm", "main.txt"]).to_string()
+    };
     let ngroups = t.weighted(&[4, 4, 2, 1]) + 1;
     let help_or_version = match t.weighted(&[30, 1, 1]) {
         1 => Some("-h"),
@@ -494,7 +499,9 @@ impl Property for C18 {
             let r = realbin::run(&realbin::bin_path(false), &dir, &args, &realbin::Limits::default());
             ctx.evals += 1;
             let mut files = realbin::snapshot(&dir);
-            files.retain(|f| f.0 != cli.input && f.0 != EXTRA_INPUT.0);
+            // the snapshot names files relative to the scratch directory: compare modulo a leading `./`
+            let norm = |n: &str| n.trim_start_matches("./").to_string();
+            files.retain(|f| f.0 != norm(&cli.input) && f.0 != EXTRA_INPUT.0);
             let _ = std::fs::remove_dir_all(&dir);
             let stdout = String::from_utf8_lossy(&r.stdout).to_string();
             let res: Option<(String, String)> = if r.signal.is_some() || r.timed_out {
@@ -523,8 +530,9 @@ impl Property for C18 {
                     Expect::Writes(want, printed) => {
                         let mut want_map: Vec<(String, Vec<u8>)> = Vec::new();
                         for (n, c) in want {
-                            want_map.retain(|x| &x.0 != n);
-                            want_map.push((n.clone(), c.clone()));
+                            let n = norm(n);
+                            want_map.retain(|x| x.0 != n);
+                            want_map.push((n, c.clone()));
                         }
                         want_map.sort();
                         if r.code != Some(0) {
